@@ -47,6 +47,16 @@ CHECKS = {
    note=TB + 'Modelled, not verified: the hand transcription of the macro into register-machine instruction lists (C/Bitfield.v) - validated on every run against the compiled generated header on all 8192 control cases; C90 integer semantics (two\'s complement, arithmetic >> on signed, << of negative int as bit pattern).',
    technique='Coq proof by reflection (symbolic bits + vm_compute sweep) + differential run of model vs compiled generated header',
    ref='5.C08'),
+ 'C09': dict(
+   text='Coq theorems on the JSON schemas REGENERATED from /repo on every run (tools/yaml2coq.py, same loader as barectf): a reflective denotation of the Draft-7 keyword subset (C09_keyword_inversion, C09_fuel_monotone) and, for ALL documents, acceptance by config/3/config implies the documented shape of the whole tree (C09_config_accepted_implies_documented_partial, C09_field_type_tree_partial) with one theorem per definition (integer/enumeration/real/string/static array/dynamic array/structure + members/trace/data stream type/event record type/clock type/trace type). Constraints still NOT enforced are refuted by kernel-evaluated witnesses replayed on the real front end (integral floats, enum mappings null, identifier trailing newline, total < content size): known findings. Oracle on every run: 45 documented-constraint mutations x every location kind of valid base documents in both dialects: an accepted violating mutant is a concrete violation. The Gallina validator is compared with python-jsonschema (through barectf\'s own validator) on ~2k (schema, instance) pairs.',
+   note=TB + 'Proof covers the final barectf 3 schema stage; the Python-side checks (alignment power of two, duplicate/reserved members, nested structure/dynamic array, ID widths, single default stream, unknown alias/clock/log level/include, cycles), the pre-expansion stage schemas and the barectf 2 dialect are decided by the mutation oracle on the implementation (stated in the evidence). Trusted: tools/yaml2coq.py (validated by the jsonschema correspondence).',
+   technique='Coq proof by reflection over regenerated JSON schemas (translator) + validator/jsonschema correspondence + constraint x location mutation oracle',
+   ref='5.C09'),
+ 'C10': dict(
+   text='PARTIAL. Coq: the access skeleton of _create_fts / _normalize_props (Front/CreateConfig.create_ft, tied to the real functions by correspondence on schema-valid nodes) never raises a non-configuration exception on a field type tree accepted by the regenerated final schema and free of floats / null mappings (C10_create_ft_total_partial, C10_create_ft_total_string); the two excluded cases are refuted by replayed crash witnesses (known findings). Validation on the implementation (named, not proved): every single structural fault (node kind x delete / retype / out-of-range / unknown or self-referencing alias and inclusion / spliced sub-tree / non-string key) on valid barectf 2 and 3 documents, random multi-fault mutants, raw byte corruption, classified as ok / configuration error / other exception by call site / timeout; every accepted document is generated and compiled; CLI sample (exit status, no traceback, no output file).',
+   note=TB + 'Partial by nature: text -> tree by PyYAML on arbitrary bytes, OS errors, the CLI and the C compiler are validated, not modelled. 26 known findings (genuine robustness defects of the unchanged front end: misplaced `required` lists in stage schemas, unguarded shapes before expansion, YAML loader exceptions, integral floats, ...), several repaired by fix: commits (duplicate schema key, static array length, member names, trace properties, non-mapping root).',
+   technique='Coq proof (totality of the field type creation skeleton over regenerated schemas) + exhaustive single-fault enumeration on the implementation',
+   ref='5.C10'),
  'C12': dict(
    text='15 Coq theorems for ALL trees: the per-key patching table, key order, update = documented patch_spec on well-formed trees, totality, members merge as ordered map, null replaces, inclusion order/search order/cycle error, alias chains of any depth and alias cycle error, inheritance chain = fold of update. Tie: the REAL _update_node on generated tree pairs vs the Coq update (vm_compute), stage-level comparison of include / alias / inherit, end-to-end scenarios through effective_configuration_file; oracle = Python transcription of the documented table.',
    note=TB + 'Modelled: Front/Patch.v, Include.v, Alias.v, Inherit.v hand-written (file system abstract; realpath/symlinks not modelled); hypotheses: no duplicate keys (PyYAML), well-formed members lists; known findings: alias name merged instead of replacing under $inherit, YAML anchor sharing mutated by in-place update.',
